@@ -216,6 +216,17 @@ class SymND:
     def mean(self, axis=None):
         raise Unsupported("mean on positional proxy")
 
+    def cumsum(self, axis=None):
+        if self.nd != 1:
+            raise Unsupported("cumsum of a matrix")
+        from .xda import CumSum
+        return CumSum(self, self.term.rows)
+
+    def item(self):
+        if self.nd == 0:
+            return PNum(z3.Real(f"item[{self.term!r}]"))
+        raise ValueError("can only convert an array of size 1 to a Python scalar")
+
     def var(self, axis=None, ddof=0):
         if self.nd == 2 and axis == 0:
             n = self.term.rows
